@@ -143,6 +143,16 @@ func (st *State) doCall(instr *ssa.Call, c *ssa.CallCommon, fnv Value, args []Va
 				for ai := range args {
 					env.vars[fmt.Sprintf("arg%d", ai)] = args[ai] // the call's arguments (receiver first)
 				}
+				// inside a loop with step clauses, prev(e) is the value at the start of the current round of the
+				// innermost such loop around the call
+				best := 0
+				for hdr, li := range e.loopsOf(fr.fn) {
+					if le := fr.loopsSeen[hdr]; le != nil && le.head != nil && li.body[fr.block] && (best == 0 || len(li.body) < best) {
+						best = len(li.body)
+						env.prev = le.head
+						env.lentry = le.entry
+					}
+				}
 				t := env.evalBool(bc.E)
 				st.assumeAll(env.defs)
 				st.u.addObl(st, "assert", "before "+key+"/"+clauseName(bc), pos, t, false)
